@@ -449,3 +449,13 @@ def rules(ctx):
     from . import common_backend as _B
     _B.polar_pair(ctx, "C06.polar", ("backends/fockbackend/circuit.py",))
     ctx.floor("C06.polar", 1)
+    # the Gaussian photon-number sampler reads the x and p quadratures of the measured modes (block offset = allocated slots);
+    # outcomes handed to a successor program are the latest ones of the engine's own record (shared with C08)
+    from . import c08 as _c08
+    _c08.register_shape(ctx, "C06.register-shape")
+    _c08.values(ctx)
+    for o in ctx.obls:
+        if o.rule == "C08.values":
+            o.rule = "C06.values"
+            o.key = o.key.replace("C08.values", "C06.values")
+    ctx.floors.pop("C08.values", None)
